@@ -2,7 +2,7 @@
     fed to the implementation and compare with what it observed. *)
 From Coq Require Import List NArith ZArith Bool Arith.
 From Verif Require Import Aries.Str Aries.Radix Aries.SegTrie Aries.Router Aries.Tiers Aries.Entry
-  Gen.AriesSkel Gen.AriesEntry.
+  Aries.CtxSeq Gen.AriesSkel Gen.AriesEntry.
 Import ListNotations.
 
 Fixpoint list_eqb {A} (eqb : A -> A -> bool) (a b : list A) : bool :=
@@ -257,7 +257,61 @@ Definition entry_obs (hmux : bool) (hm : hostmux) (rs : list router) (le : list 
       end
   end.
 
+(** * Round 3: one context through several routers; one long-lived object *)
+
+Definition hit_eqb (a b : Z * str) : bool := (fst a =? fst b)%Z && str_eqb (snd a) (snd b).
+
+(** leaves that ran, final class, [c.Rel()] afterwards (not recorded after a panic) *)
+Definition seq_eqb (a b : list (Z * str) * N * str) : bool :=
+  let '(h1, f1, r1) := a in let '(h2, f2, r2) := b in
+  list_eqb hit_eqb h1 h2 && (f1 =? f2)%N && ((f1 =? 3)%N || str_eqb r1 r2).
+
+Inductive mstep :=
+| MReg (op : mux_op) (flag : N)              (* 1 ok, 0 refused, 2 panic *)
+| MServe (p : str) (got : option N).
+
+Fixpoint mux_steps (m : mux) (l : list mstep) : bool :=
+  match l with
+  | [] => true
+  | MReg op flag :: r =>
+      match mux_apply m op with
+      | None => (flag =? 2)%N && mux_steps m r
+      | Some (m1, ok) => (flag =? (if ok then 1 else 0))%N && mux_steps m1 r
+      end
+  | MServe p got :: r => optN_eqb (mux_route m p) got && mux_steps m r
+  end.
+
+Inductive rstep :=
+| RReg (op : rop) (flag : N)
+| RServe (path method : str) (got : Z * str * N).
+
+Fixpoint router_steps (le : list (N * N)) (r : router) (l : list rstep) : bool :=
+  match l with
+  | [] => true
+  | RReg op flag :: rest =>
+      let '(r', fl) := router_obs r [op] in
+      list_eqb N.eqb fl [flag] && router_steps le r' rest
+  | RServe path method got :: rest =>
+      req_eqb (serve_nested le 8 [r] 0 (new_ctx path method)) got && router_steps le r rest
+  end.
+
+Inductive hstep :=
+| HSet (h : str) (f : N)
+| HServe (h : str) (got : option N).
+
+Fixpoint host_steps (m : hostmux) (l : list hstep) : bool :=
+  match l with
+  | [] => true
+  | HSet h f :: r => host_steps (host_set m h f) r
+  | HServe h got :: r => optN_eqb (host_serve m h) got && host_steps m r
+  end.
+
 Inductive ccase :=
+| CSeq (routers : list (list rop)) (le : list (N * N)) (roks : list (list N)) (is : list nat)
+       (reqs : list (str * str)) (obs : list (list (Z * str) * N * str))
+| CMuxSteps (l : list mstep)
+| CRouterSteps (le : list (N * N)) (l : list rstep)
+| CHostSteps (l : list hstep)
 | CMux (ops : list mux_op) (oks : list N) (paths : list str) (routes : list (option N)) (dump : node)
 | CTrie (adds : list str) (oks : list N) (paths : list str) (finds : list (str * bool)) (dump : node)
 | CSeg (adds : list (list str * str)) (oks : list N) (qs : list (list str)) (finds : list (nat * str * str))
@@ -272,6 +326,19 @@ Definition find_eqb (a b : str * bool) : bool := str_eqb (fst a) (fst b) && Bool
 
 Definition check_case (c : ccase) : bool :=
   match c with
+  | CSeq defs le roks is reqs obs =>
+      let built := map (router_obs new_router) defs in
+      list_eqb (list_eqb N.eqb) (map snd built) roks &&
+      list_eqb seq_eqb
+        (map (fun q => serve_seq gen_dispatch_cond gen_method_reject le gen_router_wrap 8
+                         (map fst built) is (new_ctx (fst q) (snd q))) reqs) obs
+  | CMuxSteps l => mux_steps new_mux l
+  | CRouterSteps le l => router_steps le new_router l
+  | CHostSteps l =>
+      match gen_host_key with
+      | HKReqHost => host_steps [] l
+      | HKUnknown _ => false
+      end
   | CMux ops oks paths routes dump =>
       let '(m, fl) := mux_obs new_mux ops in
       list_eqb N.eqb fl oks &&
